@@ -658,7 +658,10 @@ cannot parse duration string `%s'", argi->args[1U]);
 	}
 
 	make_compat:
-		if (LIKELY(fst.typ == lst.typ)) {
+		if (LIKELY(fst.typ == lst.typ) ||
+		    dt_sandwich_only_t_p(fst) || dt_sandwich_only_t_p(lst)) {
+			/* a time has no calendar to convert to or from,
+			 * it is completed with the other bound's date below */
 			clo.fst = fst;
 			clo.lst = lst;
 		} else {
